@@ -56,6 +56,24 @@ def check(src, rep):
         except Exception:  # noqa: Unsupported -- stays unbound
             pass
     rep.require(conn is not None, "cannot bind the connection field")
+    # a connection the factory has handed out is kept (stored in the connection field, where close() / the loop find it) or closed - never just dropped
+    def _ff(sv):
+        return isinstance(sv, tuple) and ((sv[:1] == ("await",) and "factory" in str(sv[1])) or any(_ff(x) for x in sv if isinstance(x, tuple)))
+    try:
+        tc_paths = Engine(M, inline_async=True).run(tc)
+    except Exception:  # noqa
+        tc_paths = []
+    for p_ in tc_paths:
+        got = any((e_[0] == "await" and "factory" in str(e_[1])) or (e_[0] == "write" and _ff(e_[3])) or (e_[0] == "assign" and _ff(e_[-1])) for e_ in p_.effects) or any(_ff(v_) for v_ in p_.store.values())
+        failed = any(g_[0] == "exc" for g_, _, _ in p_.guards) or p_.status == "raise"
+        if not got or failed:
+            continue
+        kept = any(e_[0] == "write" and e_[1] == SELF and e_[2] == conn and _ff(e_[3]) for e_ in p_.effects)
+        closed = any(e_[0] in ("mutate", "call", "callm") and "close" in str(e_[2] if e_[0] != "call" else e_[1]) and _ff(e_[1] if e_[0] != "call" else e_[2]) for e_ in p_.effects)
+        if not kept and not closed:
+            rep.violation("R4", f"{MOD}.ConnectionManager.{tc.name}", "connection-dropped", "on a path where the factory has returned a connection, it is neither stored in the manager's connection field nor closed: "
+                          "a live transport is left behind that close() cannot reach", file, tc.node.lineno, witness="; ".join(("" if pol else "not ") + show_sv(g)[:60] for g, pol, _ in p_.guards))
+            break
 
     # ---------------------------------------------------------------- R1
     helpers = {}
@@ -425,6 +443,41 @@ def _loss_signal(rep, M, src):
                           "otherwise the manager keeps waiting on a dead connection and never reconnects)", file, B.methods["connection_lost"].node.lineno,
                           witness="; ".join(("" if pol else "not ") + show_sv(g)[:50] for g, pol, _ in p.guards))
             break
+    # the manager leaves a lost connection's transport to the protocol: connection_lost() closes it whenever there is one, whatever the cause of the loss
+    cm_fn = B.methods.get("connection_made")
+    T = None
+    if cm_fn is not None and cm_fn.params:
+        for n_ in ast.walk(cm_fn.node):
+            if isinstance(n_, ast.Assign) and isinstance(n_.value, ast.Name) and n_.value.id == cm_fn.params[0] and isinstance(n_.targets[0], ast.Attribute) and isinstance(n_.targets[0].value, ast.Name) \
+                    and n_.targets[0].value.id == "self":
+                T = n_.targets[0].attr
+    if T is not None:
+        TF = ("f0", SELF0, T)
+        n_close = 0
+        for p in cps:
+            has = None
+            for g, pol, _ in p.guards:
+                gs = strip_epoch(g)
+                if gs == TF:
+                    has = pol if has is None else has
+                elif gs[0] == "cmp" and gs[1] == "Is" and gs[2] == TF and gs[3] == ("c", None):
+                    has = (not pol) if has is None else has
+            closes = [e for e in p.effects if (e[0] == "mutate" and e[2] == "close" and strip_epoch(e[1]) == TF) or
+                      (e[0] in ("call", "callm") and str(e[1] if e[0] == "call" else e[2]).endswith("close") and TF in [strip_epoch(x) for x in (e[2] if e[0] == "call" else (e[1],)) if isinstance(x, tuple)])]
+            # (a path that continues in an exception handler left the try block at the close attempt itself)
+            attempted = any(g[0] == "exc" for g, _, _ in p.guards) and any(isinstance(n_, ast.Call) and isinstance(n_.func, ast.Attribute) and n_.func.attr == "close"
+                                                                           for t_ in ast.walk(B.methods["connection_lost"].node) if isinstance(t_, ast.Try) for b_ in t_.body for n_ in ast.walk(b_))
+            closes = closes or ([1] if attempted else [])
+            if has is True and not closes:
+                bad += 1
+                rep.violation("R4", f"{MOD}.SmartMeterBaseProtocol.connection_lost", "transport-left-open", "a path of connection_lost() on which the protocol has a transport does not close it: the manager relies on "
+                              "the protocol for that, so after such a loss the old transport stays open while the next connection is made", file, B.methods["connection_lost"].node.lineno,
+                              witness="; ".join(("" if pol else "not ") + show_sv(g)[:50] for g, pol, _ in p.guards))
+                break
+            if closes:
+                n_close += 1
+        if not bad and n_close:
+            rep.ok("R4", "transport closed on loss", f"every path of connection_lost() that has a transport (self.{T}) closes it, independently of the cause of the loss")
     if not bad:
         rep.ok("R7", f"{n} connection_lost path(s)", f"`done` hands out self.{F}, bound once by the constructor; every path of connection_lost() completes it exactly once")
 
